@@ -111,6 +111,10 @@ def _run_all(jobs, njobs, hard_limit):
                         partial = [json.loads(l) for l in f if l.strip()]
                 except Exception:  # noqa
                     partial = []
+                try:
+                    os.unlink(sp)
+                except OSError:
+                    pass
                 outs[g] = {'group': g, 'seconds': time.time() - st, 'sources': {}, 'error': None,
                            'results': partial + [_ob.res('-', 'obligation group %s' % g, 'inconclusive', [],
                                                'group stopped at its hard wall limit of %d s (soft budget exceeded, solver or exploration did not return); '
